@@ -175,6 +175,9 @@ template <class S> void coords(vf::Ctx& c, const char* tname, bool th) {
   long double tol = 4 * sqrtl(eps);   // acos-based elevation: error up to sqrt(2 eps) near the poles, relative to the norm
   int naz = th ? 96 : 24;
   std::vector<long double> elev; for (int k = 0; k <= 12; ++k) elev.push_back(PI * k / 12); elev.push_back(1e-3); elev.push_back(1e-6); elev.push_back(PI - 1e-3); elev.push_back(PI - 1e-6);
+  // long-lived objects that receive every result by copy-assignment / move-assignment (a result is usually stored that way)
+  PolarCoordinates<S> keepP((S)7, (S)0.5), keepP2((S)9, (S)-0.5); SphericalCoordinates<S> keepS((S)7, (S)0.5, (S)1.0), keepS2((S)9, (S)-0.5, (S)2.0);
+  std::vector<PolarCoordinates<S>> vecP(2, PolarCoordinates<S>((S)1, (S)1)); std::vector<SphericalCoordinates<S>> vecS(2, SphericalCoordinates<S>((S)1, (S)1, (S)1));
   for (long double rr : {1e-6L, 1e-3L, 1.0L, 1e3L, 1e6L}) for (int ia = 0; ia < naz; ++ia) {
     long double az = -PI + 2 * PI * (ia + 0.5L) / naz; if (ia % 6 == 0) az = -PI + 2 * PI * ia / naz;   // include exact multiples of pi/2 and -pi
     // polar
@@ -188,6 +191,12 @@ template <class S> void coords(vf::Ctx& c, const char* tname, bool th) {
       c.obs((double)pol.getRange()); c.obs((double)pol.getAzimut());
       if ((back - p).template cast<long double>().norm() > 8 * eps * n || fabsl((long double)pol.getRange() - n) > 4 * eps * n || fabsl(backh[0] - back[0]) > 0 || backh[2] != 1 || polh.getRange() != pol.getRange() || polh.getAzimut() != pol.getAzimut())
         c.violation("polar.roundTrip", params, vf::JO().num("err_rel", (back - p).template cast<long double>().norm() / n).done());
+      {
+        keepP = pol; keepP2 = toPolar(p); PolarCoordinates<S> cp(pol); vecP[0] = pol; PolarCoordinates<S> inVec = vecP[0]; vecP.push_back(pol); vecP.erase(vecP.begin());   // erase shifts the elements by assignment
+        auto same = [&](const PolarCoordinates<S>& a) { return a.getRange() == pol.getRange() && a.getAzimut() == pol.getAzimut(); };
+        if (!same(keepP) || !same(keepP2) || !same(cp) || !same(inVec) || !same(vecP.back()) || (toCartesian(keepP) - back).norm() != 0)
+          c.violation("polar.valueSemantics", params, vf::JO().num("assigned_range", keepP.getRange()).num("assigned_azimuth", keepP.getAzimut()).num("move_assigned_range", keepP2.getRange()).num("copy_range", cp.getRange()).num("range", pol.getRange()).num("azimuth_value", pol.getAzimut()).done());
+      }
       PolarCoordinates<S> s((S)rr, (S)az); auto cart = toCartesian(s); auto s2 = toPolar(cart);
       if (fabsl((long double)s2.getRange() - s.getRange()) > 8 * eps * rr || angdiff(s2.getAzimut(), s.getAzimut()) > 8 * eps * 4) c.violation("polar.roundTrip.fromPolar", params, vf::JO().num("range", s2.getRange()).num("azimuth", s2.getAzimut()).done());
     }
@@ -204,6 +213,12 @@ template <class S> void coords(vf::Ctx& c, const char* tname, bool th) {
       c.note_max(std::string("spherical_err_over_tol_") + tname, (double)(err / tol));
       if (!(err <= tol) || fabsl((long double)sp.getRange() - n) > 4 * eps * n || backh[0] != back[0] || backh[1] != back[1] || backh[2] != back[2] || backh[3] != 1 || sph.getRange() != sp.getRange() || sph.getElevation() != sp.getElevation() || sph.getAzimut() != sp.getAzimut())
         c.violation("spherical.roundTrip", params, vf::JO().num("err_rel", err).num("tol", tol).done());
+      {
+        keepS = sp; keepS2 = toSpherical(p); SphericalCoordinates<S> cp(sp); vecS[0] = sp; SphericalCoordinates<S> inVec = vecS[0]; vecS.push_back(sp); vecS.erase(vecS.begin());
+        auto same = [&](const SphericalCoordinates<S>& a) { return a.getRange() == sp.getRange() && a.getAzimut() == sp.getAzimut() && a.getElevation() == sp.getElevation(); };
+        if (!same(keepS) || !same(keepS2) || !same(cp) || !same(vecS.back()) || !same(inVec) || (toCartesian(keepS) - back).norm() != 0)
+          c.violation("spherical.valueSemantics", params, vf::JO().num("assigned_range", keepS.getRange()).num("assigned_azimuth", keepS.getAzimut()).num("assigned_elevation", keepS.getElevation()).num("move_assigned_range", keepS2.getRange()).num("copy_range", cp.getRange()).num("range", sp.getRange()).num("azimuth_value", sp.getAzimut()).num("elevation_value", sp.getElevation()).done());
+      }
       SphericalCoordinates<S> s((S)rr, (S)az, (S)el); auto cart = toCartesian(s); auto s2 = toSpherical(cart);
       bool pole = sinl(el) < 1e-2L;
       if (fabsl((long double)s2.getRange() - s.getRange()) > 8 * eps * rr || fabsl((long double)s2.getElevation() - s.getElevation()) > tol || (!pole && angdiff(s2.getAzimut(), s.getAzimut()) > 64 * eps / sinl(el)))
